@@ -80,11 +80,11 @@ def rule_make_up_bounds(check, rule):
             # one elsewhere by where it sits in the source (inside the comprehension that builds the subsets)
             comp = [e.node for e in p.effects if e.kind == 'new' and e.target == kw_l]
             made = [i for i, e in enumerate(p.effects) if e.kind == 'call' and e.result == rng]
-            if comp and comp[0] is not None:
-                lo, hi = comp[0].lineno, getattr(comp[0], 'end_lineno', comp[0].lineno)
-                inside = [i for i in made if lo <= p.effects[i].node.lineno <= hi]
-                if inside:
-                    made = inside
+            src_call = _sizes_call_node(fi, comp[0]) if comp and comp[0] is not None else None
+            if src_call is not None:
+                exact = [i for i in made if p.effects[i].node is src_call]
+                if exact:
+                    made = exact
             if made and appends and made[0] < max(appends):
                 problems.append('the subset sizes 0..len(names) are computed before the star parameter names are appended to the list: the largest '
                                 'keyword subsets are never generated')
@@ -98,6 +98,25 @@ def rule_make_up_bounds(check, rule):
         else:
             check.holds(rule, st, 'prefixes 0..len(names), keyword subsets of every size 0..len(final names), full product', key=key, guards=gtext)
     check.floor(rule, 'returning paths of make_up_callsigs', n, 2)
+
+
+def _sizes_call_node(fi, comp):
+    """the range(...) Call node that feeds `combinations(names, i) for i in <...>` inside comp:
+    written inline, or assigned to a local before the comprehension"""
+    for n in ast.walk(comp):
+        if isinstance(n, ast.comprehension) and any(isinstance(c, ast.Call) and norm(c.func).endswith('combinations') for c in ast.walk(comp)):
+            it = n.iter
+            if isinstance(it, ast.Call) and norm(it.func) == 'range':
+                return it
+            if isinstance(it, ast.Name):
+                best = None
+                for a in ast.walk(fi.node):
+                    if isinstance(a, ast.Assign) and any(isinstance(t, ast.Name) and t.id == it.id for t in a.targets) and a.lineno < comp.lineno:
+                        if best is None or a.lineno > best.lineno:
+                            best = a
+                if best is not None and isinstance(best.value, ast.Call) and norm(best.value.func) == 'range':
+                    return best.value
+    return None
 
 
 def rule_sort_callsigs(check, rule):
@@ -313,4 +332,16 @@ def rule_bind_callsig(check, rule):
         else:
             check.violation(rule, site_of(fi, fill_loop.node), 'filling in: expected "%s", found exit %s %s with %d stores' % (msg, sp.status, exc or '', len(sets)),
                             key=key, guards=' & '.join(show_lit(l) for l in sp.lits)[:200], witness="bind_callsig(s('a, b=2'), (1,), {}) == {'a': 1, 'b': 2}")
+    required = [
+        ('bind_callsig|keyword|known=True,PO,', 'a keyword naming a positional-only parameter -> TypeError'),
+        ('bind_callsig|fill|assigned=False,vp=False,default=False', 'a missing required parameter -> TypeError'),
+        ('bind_callsig|fill|assigned=False,vp=True', 'a missing *args gets ()'),
+        ('bind_callsig|positional|KWO', None),
+    ]
+    for prefix, what in required:
+        if what is None:
+            continue
+        if not any(k.startswith(prefix) for k in seen):
+            check.violation(rule, st, 'bind_callsig has no path for the row "%s": such calls are now accepted/handled differently from CPython' % what,
+                            key=prefix + '|missing', witness='bind_callsig must accept exactly the calls CPython accepts')
     check.floor(rule, 'rows of the bind_callsig table', n, 10)
